@@ -8,6 +8,7 @@ import Driver.Lines
 import Driver.Html
 import Driver.Tree
 import Driver.Toc
+import Driver.Latex
 open Lean
 
 def dispatch (op : String) (j : Json) : Except String Json :=
@@ -19,6 +20,7 @@ def dispatch (op : String) (j : Json) : Except String Json :=
   | "traverse" => Driver.Tree.traverseOp j
   | "ast.get" => Driver.Tree.getAstOp j
   | "toc.collect" => Driver.Toc.collectOp j
+  | "latex.render" => Driver.Latex.renderOp j
   | "ping" => pure (Json.str "pong")
   | _ => throw s!"unknown op {op}"
 
